@@ -620,7 +620,7 @@ vertices of their own component and have distinct names. -/
 theorem indexed_ok_of_wf {q : IRQuery} (hwf : WF q = true) (ho : outputsOk q = true) :
     indexedOk q = true := by
   simp only [WF, Bool.and_eq_true] at hwf
-  obtain ⟨⟨⟨⟨⟨⟨w1, w2⟩, _⟩, w4⟩, _⟩, _⟩, w7⟩ := hwf
+  obtain ⟨⟨⟨⟨⟨⟨⟨w1, w2⟩, _⟩, w4⟩, _⟩, _⟩, w7⟩, _⟩ := hwf
   simp only [wfUnique, Bool.and_eq_true, natsDistinct_iff] at w2
   simp only [outputsOk, Bool.and_eq_true, namesDistinct_iff] at ho
   obtain ⟨s', hs, _⟩ := (seeComponent_ok q.variables).1 q.rootComponent {} ⟨w1, w4, w7, ho.1⟩
